@@ -35,7 +35,7 @@ MAP_MUTS = ["setitem", "delitem", "clear", "update", "inner_setitem", "inner_cle
 def floors(ctx):
     q = ctx.tier == "quick"
     f = {"evaluations": 5000 if q else 50000, "mutation_took_effect_on_copy": 1000, "protected_by_immutability": 500,
-         "input_probes": 300, "input_probes_with_unhashable_members": 50, "input_probes_fed_with_accessor_results": 10, "input_probes_on_the_base_class": 10, "sibling_key_probes": 200, "first_read_after_other_side_change_probes": 200}
+         "input_probes": 300, "input_probes_with_unhashable_members": 50, "input_probes_fed_with_accessor_results": 10, "input_probes_on_the_base_class": 10, "two_results_in_hand_probes": 500, "sibling_key_probes": 200, "first_read_after_other_side_change_probes": 200}
     for acc in ("links", "vertices", "u_vertices", "universes", "neighbors", "find_links", "bft", "dft_recursive",
                 "dft_iterative", "ibft", "edge_whitelist"):
         for mode in ("off", "cold", "warm", "off_then_on", "off_cold"):
@@ -220,9 +220,22 @@ def probe_returned(ctx, pool, rng, history):
                     r1 = oracles.outcome(thunk)  # second call: served from the cache when caching is on
                 cont = r1[1]
                 before = canon(pool, cont)
+                # a second answer to the same question, taken BEFORE the first one is touched: the two results
+                # belong to two callers, and what one of them does with his must not show in the other's
+                twin = oracles.outcome(thunk)
+                twin_before = canon(pool, twin[1]) if twin[0] == "ok" else None
                 how = mutate(cont, kind, foreign)
                 ctx.evaluated()
                 ctx.count(f"probe:{acc}:{mode}")
+                if how == "mutated" and twin[0] == "ok" and canon(pool, twin[1]) != twin_before:
+                    ctx.count("two_results_in_hand_probes")
+                    ctx.violation(f"returned:{acc}:two_results_share_one_container" + (":caching_on" if mode != "off" else ""),
+                                  f"two successive answers of {acc} were in hand; {kind} on the first changed the second from "
+                                  f"{twin_before} to {canon(pool, twin[1])}",
+                                  {"kind": "returned", "ops": history, "accessor": acc, "mutation": kind, "mode": mode})
+                    continue
+                if how == "mutated":
+                    ctx.count("two_results_in_hand_probes")
                 if how == "n/a":
                     continue
                 if how == "protected":
